@@ -109,6 +109,10 @@ const c04LeaderNode ch.NodeID = 1
 var c04AllNodes = []ch.NodeID{1, 2, 3}
 
 func c04NewCluster(faults *c04Faults) (*c04Cluster, error) {
+	return c04NewClusterN(faults, 64)
+}
+
+func c04NewClusterN(faults *c04Faults, maxChannels int) (*c04Cluster, error) {
 	c := &c04Cluster{router: &c04Router{servers: map[ch.NodeID]*replication.ExchangeServer{}, faults: faults}, faults: faults, nodes: map[ch.NodeID]*c04Node{}}
 	for _, node := range c04AllNodes {
 		factory := channelstore.NewMemoryFactory()
@@ -122,7 +126,7 @@ func c04NewCluster(faults *c04Faults) (*c04Cluster, error) {
 			ReplicaHedgeDelay: time.Millisecond, TrailingFlushInterval: 2 * time.Millisecond,
 			ExchangeTimeout: 20 * time.Second, LocalTimeout: 20 * time.Second,
 			RecoveryTimeout: 30 * time.Second, CloseTimeout: 30 * time.Second,
-			MaxChannels: 64, MaxVoters: 3,
+			MaxChannels: maxChannels, MaxVoters: 3,
 		})
 		if err != nil {
 			return nil, err
